@@ -1409,6 +1409,19 @@ def cli_probes(rng, prefix):
         c.meta = d
         c.lines = [json.dumps({k2: (v2 if not isinstance(v2, tuple) else [v2[0], (v2[1].hex() if v2[1] is not None else None)]) for k2, v2 in d.items()})]
         out.append(c)
+    # dry runs and real runs over every present / missing / absent combination of the two inputs
+    k = len(variants)
+    for dry in (True, False):
+        for v in ("valid", "missing", None):
+            for a in ("valid", "missing", None):
+                d = dict(base, id="%sprobe%d" % (prefix, k), dry=dry, acodec="aac-lc" if a else None, aalias="aac" if a else None)
+                k += 1
+                d["video"] = None if v is None else (("missing", None) if v == "missing" else ("valid", h264_key(rng, extra=False).hex().encode()))
+                d["audio"] = None if a is None else (("missing", None) if a == "missing" else ("valid", adts(rng).hex().encode()))
+                c = Case(d["id"], "cli")
+                c.meta = d
+                c.lines = [json.dumps({k2: (v2 if not isinstance(v2, tuple) else [v2[0], (v2[1].hex() if v2[1] is not None else None)]) for k2, v2 in d.items()})]
+                out.append(c)
     return out
 
 
@@ -2049,3 +2062,5 @@ PROPS["C19"]["checks"] = PROPS["C19"]["checks"] + ["C07"]
 PROPS["C19"]["fams"] = PROPS["C19"]["fams"] + [("fam_av1_syntax", 80, 2500)]
 for _p in ("C09", "C03", "C06"):
     PROPS[_p]["fams"] = PROPS[_p]["fams"] + [("fam_encode_paths", 80, 2500)]
+for _p in ("C15", "C17", "C03"):
+    PROPS[_p]["fams"] = PROPS[_p]["fams"] + [("fam_long_encode", 3, 40)]
